@@ -34,7 +34,7 @@ encoding (`encode`: mask bit set, shortest length form, 4-byte key, masked paylo
 that un-masks to the caller's bytes. -/
 theorem C16_wire_format (pooled : PFrame) (hp : Pooled pooled) (fin : Bool) (c : UInt8) (b key : List UInt8)
     (hn : b.length < 2 ^ 63) (hk : key.length = 4) :
-    ∃ fr : Frame, buildFrame pooled fin c (some b) (if b.length > 0 then [key] else []) = .ok (encode fr, []) ∧
+    ∃ fr : Frame, buildFrame pooled fin c (some b) key = .ok (encode fr, decide (b.length > 0)) ∧
       FrameOk ⟨fin, c.toNat % 16, b⟩ fr := by
   obtain ⟨a1, rest, hf, h12, hlen⟩ := pooled_cases hp
   obtain ⟨h2, _, _, _⟩ := hp
@@ -42,7 +42,7 @@ theorem C16_wire_format (pooled : PFrame) (hp : Pooled pooled) (fin : Bool) (c :
   obtain ⟨M0, C0, hM0, hSP⟩ := setPayload_eq (hb0 fin c) (a1 ||| 0x80) rest b pooled.len h2 hlen h12 (or80_and80 a1) hn
   have hok := hdrOk b.length hn
   -- evaluate the header setters
-  have hhead : ∀ (k : PFrame → M (List UInt8 × List (List UInt8))),
+  have hhead : ∀ (k : PFrame → M (List UInt8 × Bool)),
       (do let f ← PFrame.SetIsMasked ⟨0 :: a1 :: rest, pooled.len⟩
           let f ← if fin then f.SetFIN else pure f
           let f ← f.SetOpcode c
@@ -61,18 +61,18 @@ theorem C16_wire_format (pooled : PFrame) (hp : Pooled pooled) (fin : Bool) (c :
   rw [layout_bytes _ _ _ _ _ _ hM0, (layout_offsets _ _ _ M0 b b.length hok).2]
   simp only [ebind_ok]
   have hmp := maskPayload_eq (hb0 fin c) ((0x80 : UInt8) ||| len7 b.length) (extBytes b.length) M0 b C0
-    (if b.length > 0 then key else []) b.length hok (or80_idem _) hM0 (fun h => by rw [if_pos h]; exact hk)
+    key b.length hok (or80_idem _) hM0 (fun _ => hk)
   by_cases hpos : b.length > 0
   · have hnk : decide (2 + (extBytes b.length).length + 4 + b.length > 2 + (extBytes b.length).length + 4) = true := by
       simp only [decide_eq_true_eq]; omega
-    simp only [hnk, if_pos hpos, List.headD_cons, if_true] at hmp ⊢
+    simp only [hnk, if_pos hpos, if_true] at hmp ⊢
     rw [if_neg (by simp [hk])]
     simp only [hmp, ebind_ok]
     have hw := wire_eq (hb0 fin c) ((0x80 : UInt8) ||| len7 b.length) (extBytes b.length) key (maskBytes key b) C0 b.length hok hk
       (by rw [length_maskBytes]; exact Nat.le_refl _)
     rw [length_maskBytes] at hw
     rw [hw]
-    simp only [ebind_ok, epure, List.tail_cons]
+    simp only [ebind_ok, epure, decide_eq_true hpos]
     have ht : (maskBytes key b).take b.length = maskBytes key b := by
       rw [← length_maskBytes key b, List.take_length]
     rw [ht]
@@ -89,12 +89,91 @@ theorem C16_wire_format (pooled : PFrame) (hp : Pooled pooled) (fin : Bool) (c :
     simp only [hmp, ebind_ok]
     have hw := wire_eq (hb0 fin c) ((0x80 : UInt8) ||| len7 b.length) (extBytes b.length) M0 b C0 b.length hok hM0 (Nat.le_refl _)
     rw [hw]
-    simp only [ebind_ok, epure, List.take_length]
+    simp only [ebind_ok, epure, List.take_length, decide_eq_false hpos]
     have hb : b = [] := List.eq_nil_of_length_eq_zero hz
     refine ⟨{ fin := fin, rsv1 := false, rsv2 := false, rsv3 := false, opcode := c.toNat % 16, masked := true, mask := M0,
               payload := b }, ?_, rfl, hM0, rfl, rfl, rfl, rfl, rfl, ?_⟩
     · rw [encode_masked fin c M0 b hn]
     · show xorKey M0 b = b
       rw [hb]; rfl
+
+/-- **Wire format, frames built without `SetPayload`** (the defect repaired by 2ffe590: an empty Ping after a 300-byte
+message wrote 308 bytes): whatever length and contents the pooled slice has, exactly the 6 header bytes of an empty
+masked frame are written. -/
+theorem C16_wire_format_no_payload (pooled : PFrame) (hp : Pooled pooled) (h6 : 6 ≤ pooled.len)
+    (h1 : pooled.arr.getD 1 0 = 0) (fin : Bool) (c : UInt8) (key : List UInt8) (hk : key.length = 4) :
+    ∃ fr : Frame, buildFrame pooled fin c none key = .ok (encode fr, decide (pooled.len > 6)) ∧
+      (encode fr).length = 6 ∧ FrameOk ⟨fin, c.toNat % 16, []⟩ fr := by
+  obtain ⟨a1, rest, hf, h12, hlen⟩ := pooled_cases hp
+  obtain ⟨h2, _, _, _⟩ := hp
+  have ha1 : a1 = 0 := by rw [hf] at h1; simpa using h1
+  subst ha1
+  rw [hf]
+  generalize pooled.len = L at *
+  have hok := hdrOk 0 (by decide)
+  have e1 : ((0x80 : UInt8) ||| len7 0) = 0x80 := by decide
+  have e2 : extBytes 0 = [] := rfl
+  rw [e1, e2] at hok
+  -- the slice: 4 bytes where the key goes, the stale payload slice, the rest of the backing array
+  obtain ⟨M0, S, C0, hrest, hM0, hL⟩ : ∃ M0 S C0 : List UInt8,
+      rest = [] ++ M0 ++ S ++ C0 ∧ M0.length = 4 ∧ L = 2 + ([] : List UInt8).length + 4 + S.length := by
+    refine ⟨rest.take 4, (rest.drop 4).take (L - 6), (rest.drop 4).drop (L - 6), ?_, ?_, ?_⟩
+    · simp only [List.nil_append, List.append_assoc, List.take_append_drop]
+    · rw [List.length_take]; omega
+    · rw [List.length_take, List.length_drop]; simp only [List.length_nil]; omega
+  subst hrest
+  subst hL
+  have hpos_iff : (2 + ([] : List UInt8).length + 4 + S.length > 6) ↔ S.length > 0 := by simp only [List.length_nil]; omega
+  have hhead : ∀ (k : PFrame → M (List UInt8 × Bool)),
+      (do let f ← PFrame.SetIsMasked ⟨0 :: 0 :: ([] ++ M0 ++ S ++ C0), 2 + ([] : List UInt8).length + 4 + S.length⟩
+          let f ← if fin then f.SetFIN else pure f
+          let f ← f.SetOpcode c
+          k f) = k ⟨hb0 fin c :: ((0 : UInt8) ||| 0x80) :: ([] ++ M0 ++ S ++ C0), 2 + ([] : List UInt8).length + 4 + S.length⟩ := by
+    intro k
+    unfold PFrame.SetIsMasked PFrame.SetFIN PFrame.SetOpcode hb0
+    rw [modify1 _ _ _ _ _ (by omega)]
+    cases fin <;> simp only [ebind_ok, epure, if_true, if_false, Bool.false_eq_true,
+      modify0 _ _ _ _ _ (show 0 < 2 + ([] : List UInt8).length + 4 + S.length by omega)]
+  unfold buildFrame
+  rw [hhead]
+  have e3 : ((0 : UInt8) ||| 0x80) = 0x80 := by decide
+  simp only [ebind_ok, epure, e3]
+  unfold PFrame.SetIsMasked
+  rw [modify1 _ _ _ _ _ (by omega)]
+  have e4 : ((0x80 : UInt8) ||| 0x80) = 0x80 := by decide
+  simp only [ebind_ok, e4]
+  rw [layout_bytes _ _ _ _ _ _ hM0, (layout_offsets _ _ _ M0 S 0 hok).2]
+  simp only [ebind_ok]
+  have hmp := maskPayload_eq (hb0 fin c) (0x80 : UInt8) [] M0 S C0 key 0 hok e4 hM0 (fun _ => hk)
+  by_cases hpos : S.length > 0
+  · have hnk : decide (2 + ([] : List UInt8).length + 4 + S.length > 2 + ([] : List UInt8).length + 4) = true := by
+      simp only [decide_eq_true_eq]; omega
+    simp only [hnk, if_pos hpos, if_true] at hmp ⊢
+    rw [if_neg (by simp [hk])]
+    simp only [hmp, ebind_ok]
+    have hw := wire_eq (hb0 fin c) (0x80 : UInt8) [] key (maskBytes key S) C0 0 hok hk (Nat.zero_le _)
+    rw [length_maskBytes] at hw
+    rw [hw]
+    simp only [ebind_ok, epure, List.take_zero, List.append_nil, List.nil_append, decide_eq_true (hpos_iff.mpr hpos)]
+    refine ⟨{ fin := fin, rsv1 := false, rsv2 := false, rsv3 := false, opcode := c.toNat % 16, masked := true, mask := key,
+              payload := [] }, ?_, ?_, rfl, hk, rfl, rfl, rfl, rfl, rfl, rfl⟩
+    · rw [encode_masked fin c key [] (by decide)]
+      simp only [List.length_nil, e1, e2, List.append_nil, List.nil_append]
+    · rw [encode_masked fin c key [] (by decide)]
+      simp only [List.length_nil, e2, List.append_nil, List.nil_append, List.length_cons, hk]
+  · have hnk : decide (2 + ([] : List UInt8).length + 4 + S.length > 2 + ([] : List UInt8).length + 4) = false := by
+      simp only [decide_eq_false_iff_not]; omega
+    simp only [hnk, if_neg hpos, Bool.false_eq_true, if_false] at hmp ⊢
+    rw [if_neg (by simp)]
+    simp only [hmp, ebind_ok]
+    have hw := wire_eq (hb0 fin c) (0x80 : UInt8) [] M0 S C0 0 hok hM0 (Nat.zero_le _)
+    rw [hw]
+    simp only [ebind_ok, epure, List.take_zero, List.append_nil, List.nil_append, decide_eq_false (fun h => hpos (hpos_iff.mp h))]
+    refine ⟨{ fin := fin, rsv1 := false, rsv2 := false, rsv3 := false, opcode := c.toNat % 16, masked := true, mask := M0,
+              payload := [] }, ?_, ?_, rfl, hM0, rfl, rfl, rfl, rfl, rfl, rfl⟩
+    · rw [encode_masked fin c M0 [] (by decide)]
+      simp only [List.length_nil, e1, e2, List.append_nil, List.nil_append]
+    · rw [encode_masked fin c M0 [] (by decide)]
+      simp only [List.length_nil, e2, List.append_nil, List.nil_append, List.length_cons, hM0]
 
 end Sonic.Props.C16
